@@ -122,6 +122,7 @@ type Interp struct {
 	absOf           map[int]*fterm
 	atomFn          map[int]string
 	atomArgs        map[int][2]int
+	orderCache      map[[2]string]uint8 // termOrder.static
 	Precise         bool // byte-precise library models (interp_precise.go)
 	preciseKind     map[int]string
 	curState        *State
